@@ -1,17 +1,19 @@
 #!/bin/bash
-# Detection matrix: every seeded change under seeded/ against every check.
+# Detection matrix: every seeded change under seeded/ (both rounds) against every check.
 # Runs in an isolated copy (vp run --with-repo): ALDY_REPO points at a scratch copy of the repository.
-#   usage: harness/seed_matrix.sh <repo copy> [seed ids] [check ids]
-R="$1"; SEEDS="${2:-$(ls seeded)}"; CHECKS="${3:-C01 C02 C03 C04 C05 C06 C07 C08 C09 C10 C11 C12 C13 C14 C15 C16 C17 C18 C19}"
+#   usage: harness/seed_matrix.sh <repo copy> [patch files] [check ids]
+R="$1"; PATCHES="${2:-$(ls seeded/C*/patch.diff seeded/round2/C*/patch.diff)}"; CHECKS="${3:-C01 C02 C03 C04 C05 C06 C07 C08 C09 C10 C11 C12 C13 C14 C15 C16 C17 C18 C19}"
 export ALDY_REPO="$R"
 ls "$R"/aldy/indelpost/*.so >/dev/null 2>&1 || cp /repo/aldy/indelpost/*.so "$R"/aldy/indelpost/
-for s in $SEEDS; do
-  (cd "$R" && patch -p1 -s < "$OLDPWD/seeded/$s/patch.diff") || { echo "seed=$s APPLY-FAILED"; continue; }
+V="$(pwd)"
+for pf in $PATCHES; do
+  s=$(echo "$pf" | sed 's#seeded/##; s#/patch.diff##; s#/#-#')
+  (cd "$R" && patch -p1 -s < "$V/$pf") || { echo "seed=$s APPLY-FAILED"; (cd "$R" && patch -p1 -R -s -f < "$V/$pf" >/dev/null 2>&1); continue; }
   for c in $CHECKS; do
     t0=$(date +%s)
     out=$(timeout 1800 ./check $c 2>&1); rc=$?
     v=$(echo "$out" | grep -c "^VIOLATION"); nf=$(echo "$out" | grep -c "no-failing-input-found")
     echo "seed=$s check=$c rc=$rc violation=$v nofail=$nf $(( $(date +%s) - t0 ))s :: $(echo "$out" | grep -v '^KNOWN-FINDING' | grep -v '^VIOLATION' | tail -1 | cut -c1-160)"
   done
-  (cd "$R" && patch -p1 -R -s < "$OLDPWD/seeded/$s/patch.diff")
+  (cd "$R" && patch -p1 -R -s < "$V/$pf")
 done
